@@ -8,7 +8,7 @@ import copy
 from simkit import harness as H
 from simkit import sched as S
 from simkit import world as W
-from simkit.runner import Result, rng_for
+from simkit.runner import Result, rng_for, stable_hash
 
 ID = "C02"
 ENGINE = "simsched"
@@ -236,7 +236,7 @@ def run(sc: dict) -> Result:
         res.info["switch_log"] = list(sched.switch_log)
         res.faults.update(w.faults_fired)
         res.faults["preemptions"] += sched.preemptions
-        res.digest = w.digest() + ":" + str(hash(tuple(sched.trace)) & 0xFFFFFFFF)
+        res.digest = w.digest() + ":" + stable_hash(sched.trace)
         res.trace = sched.signature()
         res.nontrivial = sched.preemptions > 0
         res.sim_s = w.now - W.VClock.START
